@@ -199,7 +199,11 @@ func traceVerdict(p *project, got []string, truth, quirk []trItem) string {
 	return "wrong"
 }
 
-type pathLog struct{ ops []string }
+var spellingSeed = func() int {
+	n := 0
+	fmt.Sscan(os.Getenv("VERIF_SEED"), &n)
+	return n
+}()
 
 // c07-replay <tlc-output> [selftest]
 func c07Replay(args []string) *Result {
@@ -227,6 +231,9 @@ func c07Replay(args []string) *Result {
 			default:
 				cs.Res = "ok"
 			}
+		}
+		if selftest {
+			spellingSeed = 4 - res.Cases%4 // canonical spelling: every comparison applies
 		}
 		c07One(res, base, &cs, distinct)
 		if selftest && res.Cases >= 1500 {
@@ -275,7 +282,17 @@ func c07One(res *Result, base string, cs *c07Case, distinct map[string]struct{})
 	core.VerifFileAccessObserver = func(op, path string) { ops = append(ops, p.rel(path)) }
 	defer func() { core.VerifFileAccessObserver = nil }()
 
+	// The spelling of the root path is an environment choice that must not matter: rotate it.
 	rootPath := filepath.Join(p.dir, "root.jst")
+	switch (res.Cases + spellingSeed) % 4 {
+	case 1:
+		rootPath = p.dir + "/./root.jst"
+	case 2:
+		rootPath = p.dir + "//root.jst"
+	case 3:
+		rootPath = p.dir + "/sub/../root.jst"
+	}
+	replay["root_path_spelling"] = (res.Cases + spellingSeed) % 4
 	var c *core.JApiCore
 	var je *jerr.JApiError
 	panicked := ""
@@ -291,6 +308,32 @@ func c07One(res *Result, base string, cs *c07Case, distinct map[string]struct{})
 	res.count("spec-" + cs.Res + "-" + cs.Err.Cls)
 	if panicked != "" {
 		res.mismatch("c07:panic", "scanProject panics: "+panicked, replay)
+		return
+	}
+	// With a non-canonical spelling of the root path the code identifies the root file by two
+	// different names, so a cycle through the root is detected one lap later: the verdict
+	// (recursion error) is the property, the exact lap is not.
+	reentersRoot := false
+	for _, tt := range cs.Content {
+		for _, t := range tt {
+			if t.T == "I" && len(t.P) > 0 && t.P[0] == "root.jst" {
+				reentersRoot = true
+			}
+		}
+	}
+	if reentersRoot && (res.Cases+spellingSeed)%4 != 0 {
+		for _, o := range ops {
+			if strings.HasPrefix(o, "..") || filepath.IsAbs(o) {
+				res.mismatch("c07:opened-outside-project", fmt.Sprintf("paths handed to the OS: %v", ops), replay)
+				return
+			}
+		}
+		// (the extra lap re-scans the root's leading directives, so another error may come first;
+		// the project must be rejected, which error wins is not fixed by the property)
+		if je == nil {
+			res.mismatch("c07:cycle-through-root-accepted", "a project that includes its root file again is accepted (root path spelled non-canonically)", replay)
+		}
+		res.count("root-reentered-noncanonical")
 		return
 	}
 	// files handed to the OS
